@@ -183,7 +183,7 @@ func (w *World) Procs() []*Proc {
 func (w *World) RegisterProgram(path string, contents []byte, main func()) {
 	w.mu.Lock()
 	defer w.mu.Unlock()
-	w.fs[path] = &Node{Kind: KFile, Data: contents, Mode: 0o755}
+	w.fs[path] = &Node{Kind: KFile, Data: contents, Mode: 0o755, ReadErrAt: -1}
 	w.programs[path] = main
 }
 
